@@ -457,6 +457,8 @@ pub fn ehdr_sets() -> Vec<Vec<(String, Vec<u8>)>> {
         vec![("content-type".into(), b"text/plain".to_vec())],
         vec![("content-type".into(), b"application/octet-stream".to_vec()), ("x-ent-a".into(), vec![b'v'; 1])],
         vec![("x-long".into(), vec![b'z'; 200]), ("content-language".into(), b"en".to_vec()), ("x-ent-b".into(), b"two words".to_vec())],
+        // a value with bytes >= 0x80 that are not UTF-8 (an ISO-8859-1 file name) and an empty value
+        vec![("content-disposition".into(), b"attachment; filename=\"caf\xe9.txt\"".to_vec()), ("x-empty".into(), vec![])],
         // a multi-valued header name (HeaderMap::append twice, another name in between)
         vec![("vary".into(), b"accept-encoding".to_vec()), ("cache-control".into(), b"max-age=3600".to_vec()), ("vary".into(), b"accept-language".to_vec())],
     ]
@@ -687,8 +689,13 @@ pub fn gen_c04(rng: &mut Rng, thorough: bool, emit: &mut dyn FnMut(ServeCase)) {
                                 if let Some(d) = ius {
                                     h.push(("if-unmodified-since".into(), http_date((lm_s + d) as u64)));
                                 }
-                                if rng.chance(1, 6) {
-                                    h.push(("range".into(), b"bytes=1-3".to_vec()));
+                                // a Range header rides along now and then: satisfiable, or selecting nothing
+                                // (412 / 304 come before range selection, also before a 416)
+                                match rng.below(9) {
+                                    0 => h.push(("range".into(), b"bytes=1-3".to_vec())),
+                                    1 => h.push(("range".into(), b"bytes=500-".to_vec())),
+                                    2 => h.push(("range".into(), b"bytes=1-3, 500-600".to_vec())),
+                                    _ => {}
                                 }
                                 let class = format!(
                                     "G:c04 etag={:?} mtime={:?} {}",
